@@ -1,7 +1,7 @@
 //! C20 sub-engine `regexp`: regexp_is_match / regexp_is_match_scalar for every regex of length <= R over
 //! {a . * ^ $ ( ) | é} that compiles, flags {none, "i"}, compared against the `regex` crate (which is
 //! the definition) across encodings, layouts and the scalar / array forms.
-use crate::like::{Family, check_bool, sel};
+use crate::like::{Family, attribute, check_bool, sel};
 use crate::tables::*;
 use arrow_array::cast::AsArray;
 use arrow_array::{Array, ArrayRef, BooleanArray, StringArray};
@@ -67,17 +67,14 @@ fn compile(re: &str, flag_i: bool) -> Regex {
     if flag_i { Regex::new(&format!("(?i){re}")).unwrap() } else { Regex::new(re).unwrap() }
 }
 
-fn fingerprint(kind: &str, form: &str, flag_i: bool, enc: Option<String>) -> String {
+fn fingerprint(kind: &str, form: &str, flag_i: bool, enc: &str) -> String {
     let f = if flag_i { "flag-i" } else { "no-flag" };
     let base = match kind {
         "value" => format!("c20:regexp_is_match:{form}:{f}"),
         "wf" => format!("wf:c20:regexp_is_match:{form}"),
         k => format!("c20:regexp_is_match:{form}:{f}:{k}"),
     };
-    match enc {
-        Some(e) => format!("{base}:enc={e}"),
-        None => base,
-    }
+    if kind == "value" { format!("{base}{enc}") } else { base }
 }
 
 /// one unit: regex `ri`
@@ -99,11 +96,9 @@ pub fn run_regex(w: &RegexWorld, ri: usize, st: &mut Stats, order_base: u64) {
         }
         st.add("regexp", 0, if re.is_empty() { 0 } else { 2 * (n as u64 - 1) });
         st.count("regexp_distinct_regex_flag_haystack_triples", 2 * n as u64);
-        let mut ref_bad = [[false; 2]; 2];
         let mut pat_cache: Vec<(Kind, usize, ArrayRef)> = vec![];
         let mut flag_cache: Vec<(usize, StringArray)> = vec![];
         for (ci, col) in fam.cols.iter().enumerate() {
-            let is_ref = ci == 0;
             let nrows = col.len();
             let pats = match pat_cache.iter().find(|(k, l, _)| *k == col.kind && *l == nrows) {
                 Some(e) => e.2.clone(),
@@ -165,15 +160,29 @@ pub fn run_regex(w: &RegexWorld, ri: usize, st: &mut Stats, order_base: u64) {
                     });
                     st.add("regexp", nrows as u64, 0);
                     if let Err((kind, m)) = r {
-                        if is_ref {
-                            ref_bad[f][form] = true;
-                        }
-                        let enc = (!is_ref && !ref_bad[f][form]).then(|| col.enc_class());
                         let formn = ["scalar", "array"][form];
-                        let hay = col.rows.get(m.row).copied().flatten().map(|h| strs[h as usize].clone());
+                        let hrow = col.rows.get(m.row).copied().flatten();
+                        let hay = hrow.map(|h| strs[h as usize].clone());
+                        let (row_re, row_flag) = if form == 0 { (Some(re), flag_i) } else { (match sel(m.row) { 0 => Some(re), 1 => Some(alt), _ => None }, flag_i && row_flag_i(m.row)) };
+                        let enc = match (kind.as_str(), row_re) {
+                            ("value", Some(q)) => attribute(col, &fam.table, hrow, m.want_b, &|c1: &Col| {
+                                let r = if form == 0 {
+                                    catch(|| call_scalar(c1, q, row_flag.then_some("i")))
+                                } else {
+                                    let pa = make_opt(c1.kind, &vec![Some(q.as_bytes()); c1.len()]);
+                                    let fl = StringArray::from(vec![row_flag.then_some("i"); c1.len()]);
+                                    catch(|| call_array(c1, &pa, Some(&fl)))
+                                };
+                                match r {
+                                    Ok(Ok(a)) if a.len() > 0 => Some(a.is_valid(0).then(|| a.value(0))),
+                                    _ => None,
+                                }
+                            }),
+                            _ => String::new(),
+                        };
                         st.violate(
                             order_base + (((ri as u64) << 20) | ((fi as u64) << 16) | ((ci as u64) << 4) | ((f as u64) << 1) | form as u64),
-                            fingerprint(&kind, formn, flag_i, enc),
+                            fingerprint(&kind, formn, flag_i, &enc),
                             format!("regexp_is_match {formn}({} column {:?}, regex {:?} alt {:?}, flag_i={flag_i}) row {}: haystack {:?} got {} want {} ({} rows differ)", col.enc_class(), col.name, re, alt, m.row, hay, m.got, m.want, m.count),
                             || json!({"sub": "regexp", "regex_index": ri, "regex": re, "alt_regex": alt, "flag_i": flag_i, "family": fam.name, "column": col.name, "form": formn, "row": m.row, "haystack": hay, "got": m.got, "want": m.want}),
                         );
